@@ -552,6 +552,18 @@ verus_unit(
         "FLUSH": dict(file="src/stream/chain.rs", anchor="fn flush_remainders_head", fn="flush_remainders_head", extra=[
             (r"\.write\(self\.heads\.remainders\.as_\(\)\)\s*\.map_err\(\|err\| CoderError::Backend\(BackendError::Remainders\(err\)\)\)\?", ".write(self.heads.remainders.s2w()).ber()?", 1),
         ]),
+        "HEADS_NEW": dict(file="src/stream/chain.rs", anchor="/// Private on purpose.", fn="new", extra=[
+            (r"source\.read\(\)\?\s*\{", "source.read().bek()? {", 1),
+            (r"Some\(word\) if word != Word::zero\(\) => word\.into\(\),", "Some(word) if word != (0 as Word) => { proof { lemma_new_first(data0); } word.w2s() },", 1),
+            (r"return Err\(CoderError::Frontend\(\(\)\)\)", "return Err(NewError::Frontend)", 1),
+            # ghost-only: loop contract between the (untouched) loop condition and the body
+            (r"while ([^{]*?)\{",
+             r"while \1" "\n            invariant static_ok(PRECISION), threshold as nat == pow2((STATE_BITS - WORD_BITS - PRECISION) as nat), remainders_head >= 1, (remainders_head as nat) < pow2((STATE_BITS - PRECISION) as nat),\n"
+             "                source@.len() <= data0.len(), source@ == data0.subrange(0, source@.len() as int), bigv(source@, remainders_head) == bigv(data0, if push_one { 1 } else { 0 }),\n"
+             "            decreases source@.len()\n        {\n            proof { lemma_new_facts(PRECISION); if source@.len() > 0 { lemma_new_step(source@, remainders_head, PRECISION); assert(source@.drop_last() =~= data0.subrange(0, source@.len() - 1)); } }", 1),
+            (r"\|\s*source\.read\(\)\?\.ok_or\(CoderError::Frontend\(\(\)\)\)\?\.into\(\)", "| source.read().bek()?.ok_or_frontend()?.w2s()", 1),
+            (r"Ok\(ChainCoderHeads \{\s*compressed: Word::one\(\)\.into_nonzero\(\)\.expect\(\"1 != 0\"\),\s*remainders: remainders_head,\s*\}\)", "Ok(Heads { compressed: word_one_nz(), remainders: remainders_head })", 1),
+        ]),
         "DECODE": dict(file="src/stream/chain.rs", anchor=_CH_DEC, fn="decode_symbol", extra=[
             (r"\.read\(\)\s*\.map_err\(BackendError::Compressed\)\?\s*\.ok_or\(CoderError::Frontend\(\s*DecoderFrontendError::OutOfCompressedData,?\s*\)\)\?", ".read().bec()?.ok_or_out_of_data()?", 1),
             (r"Word::NonZero::new_unchecked\(", "nzw_unchecked(", 2),
@@ -562,6 +574,8 @@ verus_unit(
         ]),
     },
     obligations={
+        "heads_new": dict(own=["C13", "C14", "C10", "C20"], dep=[], kani_twin="chain::u8_u16_p5::new_heads",
+                          text="ChainCoderHeads::new (data of ANY length, all P): Ok => both bounds of the remainders-head invariant, empty compressed head, remaining source is a prefix of the data, (head, rest) denotes marker ++ data resp. data"),
         "flush_remainders_head": dict(own=["C13", "C20"], dep=["C14", "C10"], text="ensures: pushes the low word of the remainders head and shifts it; failure leaves everything unchanged"),
         "decode_symbol": dict(own=["C14", "C13", "C10", "C20"], dep=[], kani_twin="chain::u8_u16_p5::dec_step",
                               text="ensures: out-of-data iff a word is needed and none is left (coder unchanged); else symbol = model(next P-bit chunk), compressed side = old minus the chunk (independent of model and remainders), remainders step with flush iff >= 2^(sb-P), head invariants kept [all P <= Word bits]"),
